@@ -99,7 +99,7 @@ func newExecer(p *Program, dir string, emit func(map[string]interface{})) (*exec
 		if err != nil {
 			return nil, machineryError{"bad value in vals: " + s}
 		}
-		if v > MaxIndex+1 {
+		if v > MaxIndex {
 			return nil, machineryError{"value outside the domain: " + s}
 		}
 		if !first && v <= last {
@@ -402,6 +402,10 @@ func (x *execer) step(op *Op) error {
 			return err
 		}
 		ev["real"] = fmt.Sprintf("DeleteRange(%d,%d)", lo, hi)
+		if lo <= StableBoundary && hi >= StableBoundary {
+			// the byte range [key(lo), key(hi+1)) contains the "stablestore-" keys
+			ev["across"] = 1
+		}
 		code, msg = guard(func() error { return x.st.DeleteRange(lo, hi) })
 	case "Set":
 		ev["k"], ev["v"] = op.K, op.V
@@ -456,7 +460,13 @@ func runProgram(p *Program, base string, emit func(map[string]interface{})) erro
 	if err != nil {
 		return err
 	}
-	emit(map[string]interface{}{"ev": "Reset", "prog": p.ID, "dom": p.Dom, "kdom": p.KDom,
+	above := []int{} // index ranks whose key sorts after the "stablestore-" keys
+	for _, r := range p.Dom {
+		if x.real[r] > StableBoundary {
+			above = append(above, r)
+		}
+	}
+	emit(map[string]interface{}{"ev": "Reset", "prog": p.ID, "dom": p.Dom, "kdom": p.KDom, "above": above,
 		"pclass": payloadClass[1:], "vals": p.Vals})
 	defer func() {
 		if x.st != nil {
